@@ -30,7 +30,38 @@ def spec_instances(chk, cfg, name, flavour="asan-ubsan"):
     shutil.rmtree(d2, ignore_errors=True)
 
 
+def ssp_model(chk):
+    """Design level: the nondeterministic successive-shortest-path model keeps every partial plan optimal; the real solver's
+    plan must be one of the model's final plans (implementation conformance, informational)."""
+    import json
+    cfg = "SspImpl_" + chk.tier
+    d = vlib.scratch("C13-ssp")
+    out = os.path.join(d, "finals.out")
+    res = vlib.tlc_ok(vlib.tlc("SspImpl", cfg=cfg, workers=16, coverage=True, stdout_path=out, timeout=3000, xmx="16g"), cfg)
+    if res["violated"]:
+        raise vlib.FrameworkError("SspImpl violates its own invariants: %s" % res["violated"])
+    if res["coverage"].get("Augment", [0, 0])[1] == 0:
+        raise vlib.FrameworkError("vacuous SspImpl model")
+    chk.add_tlc(res, "tlc successive-shortest-path model (partial optimality, final optimum == brute force, progress)")
+    exe = vlib.build_exe("asan-ubsan", "replay")
+    rc, so, se = vlib.run_exe(exe, stdin_path=out, timeout=3000)
+    if rc != 0:
+        raise vlib.FrameworkError("replayer failed on SspImpl finals: %s" % (se or "")[-400:])
+    inst = {}
+    for line in so.splitlines():
+        if line.startswith("{") and "sspkey" in line:
+            e = json.loads(line)
+            inst[e["sspkey"]] = inst.get(e["sspkey"], False) or e["match"]
+    if not inst:
+        raise vlib.FrameworkError("no SspImpl final plan was replayed")
+    ok = sum(1 for v in inst.values() if v)
+    chk.cov.setdefault("impl_conformance", {})[cfg] = {"instances": len(inst), "real_plan_among_model_finals": ok}
+    chk.step("real solver's plan among the model's final plans", instances=len(inst), conformant=ok)
+    shutil.rmtree(d, ignore_errors=True)
+
+
 def run(chk):
+    ssp_model(chk)
     # self-check of the contract: negative-cycle criterion == brute-force minimum over all feasible plans
     res = vlib.tlc_ok(vlib.tlc("Transport", cfg="Transport_oracle", workers=16, timeout=1200), "oracle")
     if res["violated"]:
